@@ -1,22 +1,22 @@
 SPECIFICATION Spec
 CONSTANTS
-  Kind = "sn"
-  Smp = "ref"
+  Kind = "mps"
+  Smp = "asis"
   SumSamples = FALSE
   ExpSamples = FALSE
-  OptImpl = "fixed"
+  OptImpl = "pinned"
   Ctor = "bare"
   N = 2
   Chans = 1
   Temps = {"any"}
-  Acts = {"temp", "hard", "gumbel", "disable", "mode", "fwd", "alpha", "load", "summary", "export"}
-  Writes = {"copy", "data", "optim"}
+  Acts = {"hard", "mode", "fwd", "alpha", "load", "freeze"}
+  Writes = {"copy"}
   Ckpts = {"soft"}
   Moves = "gen"
   InitAlpha = "ctor"
   AllowKF = FALSE
-  Grads = {TRUE, FALSE}
-  SelHows = {}
+  Grads = {TRUE}
+  SelHows = {"freeze_attr", "unfreeze_attr"}
 INVARIANT TypeOK
 INVARIANT SampledIsProb
 INVARIANT OneHotAtArgmax
